@@ -4,6 +4,7 @@ CONSTANTS
   MaxWrites = 4
   MaxSteps = 10
   WithFatalKeep = TRUE
+  WithEof = TRUE
   Variant = "requeue"
 INVARIANT TypeOK
 INVARIANT Conforms
